@@ -27,23 +27,30 @@ WorkWires(c) == IF c.wk = 0 THEN {} ELSE {c.lay[c.wk][i] : i \in 1..Len(c.lay[c.
 \* do two indices agree on all non-work wires ?
 SameValue(c, a, b) == \A w \in (0..(c.N - 1)) \ WorkWires(c) : WireBit(a, c.N, w) = WireBit(b, c.N, w)
 
+\* do two indices agree on all work wires ?
+SameWork(c, a, b) == \A w \in WorkWires(c) : WireBit(a, c.N, w) = WireBit(b, c.N, w)
+Join(a, b) == IF a = "" THEN b ELSE IF b = "" THEN a ELSE a \o "+" \o b
+
+\* every failing clause of the trace, joined with "+"; "ok" when none fails
 Verdict(t) ==
   LET c == t.c
       T == TLCEval(Table(c))
       ins == {x[1] : x \in T}
       ExpF == TLCEval([i \in ins |-> (CHOOSE x \in T : x[1] = i)[2]])
-      Exp(i) == IF i \in ins THEN ExpF[i] ELSE -1
       obs == t.obs
       J == 1..Len(obs)
+      JB == {j \in J : obs[j].i \in ins /\ obs[j].st # "mixed"}     \* observations that are basis states
+      mixed == IF \E j \in J : obs[j].st = "mixed" THEN "not-a-basis-state" ELSE ""
+      value == IF \E j \in JB : ~SameValue(c, obs[j].o, ExpF[obs[j].i]) THEN "wrong-value" ELSE ""
+      work == IF \E j \in JB : ~SameWork(c, obs[j].o, ExpF[obs[j].i]) THEN "work-wires-not-restored" ELSE ""
+      phase == IF \E j \in J : obs[j].st = "phase" THEN "stray-phase" ELSE ""
+      basic == Join(Join(mixed, value), Join(work, phase))
+      sup == IF basic = "" /\ t.sup # <<>> /\ ({t.sup[j] : j \in 1..Len(t.sup)} # {x[2] : x \in T} \/ ~t.supflat)
+             THEN "superposition" ELSE ""
   IN  IF ~Pre(c) THEN "outside-preconditions"
       ELSE IF t.exc # "" THEN "exception"
       ELSE IF {obs[j].i : j \in J} # ins THEN "domain-not-covered"
-      ELSE IF \E j \in J : obs[j].st = "mixed" THEN "not-a-basis-state"
-      ELSE IF \E j \in J : obs[j].o # Exp(obs[j].i) /\ ~SameValue(c, obs[j].o, Exp(obs[j].i)) THEN "wrong-value"
-      ELSE IF \E j \in J : obs[j].o # Exp(obs[j].i) THEN "work-wires-not-restored"
-      ELSE IF \E j \in J : obs[j].st # "basis" THEN "stray-phase"
-      ELSE IF t.sup # <<>> /\ ({t.sup[j] : j \in 1..Len(t.sup)} # {x[2] : x \in T} \/ ~t.supflat) THEN "superposition"
-      ELSE "ok"
+      ELSE IF Join(basic, sup) = "" THEN "ok" ELSE Join(basic, sup)
 
 TDone == /\ ~done /\ done' = TRUE /\ tid' = tid
          /\ PrintT(<<"V", tid, Verdict(Tr)>>)
